@@ -222,6 +222,8 @@ type pvRecorder struct {
 	reentrant map[string]map[string]any
 	valid     map[string]bool
 	async     sync.WaitGroup
+	// closeInComplete: see pvCase.CloseInComplete
+	closeInComplete string
 }
 
 func (r *pvRecorder) tick() int64 { return r.clock.Add(1) }
@@ -332,6 +334,27 @@ func (r *pvRecorder) OnStepComplete(rs step.RunningStep, prev string, outID *str
 		n.State = "<State() blocked>"
 		r.mu.Unlock()
 	}
+	if r.closeInComplete != "" {
+		op := r.closeInComplete
+		r.closeInComplete = ""
+		done := make(chan struct{})
+		r.async.Add(1)
+		go func() {
+			defer r.async.Done()
+			defer close(done)
+			c := &pvCall{Op: op, Origin: "handler", Valid: true}
+			r.call(c, func() error {
+				if op == "forceclose" {
+					return rs.ForceClose()
+				}
+				return rs.Close()
+			})
+		}()
+		select {
+		case <-done:
+		case <-time.After(150 * time.Millisecond):
+		}
+	}
 	r.ret(n)
 }
 
@@ -370,6 +393,9 @@ type pvCase struct {
 	Actions    []pvAction           `json:"actions"`
 	Behaviours map[string]Behaviour `json:"behaviours,omitempty"`
 	Targeted   string               `json:"targeted,omitempty"`
+	// "close" | "forceclose": the completion callback starts that call on another goroutine and stays inside the callback
+	// until the call has returned (at most 150 ms): a Close that overlaps with the completion of the step
+	CloseInComplete string `json:"close_in_complete,omitempty"`
 }
 
 var pvDelays = []int{0, 0, 0, 1, 1, 5, 5, 20}
@@ -572,6 +598,7 @@ func targetedCases(flood bool) []*pvCase {
 		return &pvCase{ID: "T-" + name, Targeted: name, Provider: "plugin", Step: stp, Behaviour: b, Env: env, TimeoutMs: 30, Actions: acts}
 	}
 	full := func() []pvAction { return seqA("deploy", nil, "enabling", true, "starting", "valid") }
+	closeIn := func(c *pvCase, op string) *pvCase { c.CloseInComplete = op; return c }
 	cs := []*pvCase{
 		mk("closed-waiting-deploy", "op", Behaviour{Outcome: "success"}, okEnv, seqA("close", nil)),
 		mk("deploy-failed-create", "op", Behaviour{Outcome: "success"}, pvEnv{StartMode: "ok", DeployCfg: "failcreate"}, seqA("deploy", nil)),
@@ -582,6 +609,13 @@ func targetedCases(flood bool) []*pvCase {
 			pvEnv{StartMode: "ok", DeployCfg: "local", DeployIgnoreCtx: true}, withDelay(seqA("deploy", nil, "close", nil), 1, 5)),
 		mk("closed-waiting-enable", "op", Behaviour{Outcome: "success"}, okEnv, withDelay(seqA("deploy", nil, "close", nil), 1, 5)),
 		mk("disabled", "op", Behaviour{Outcome: "success"}, okEnv, seqA("deploy", nil, "enabling", false)),
+		// Close / ForceClose overlapping with the completion of a step that does not end in plain success (the provider still
+		// has failure notifications to send after the completion report): none of them may start after the call returned
+		closeIn(mk("close-during-completion:deploy-failed", "op", Behaviour{Outcome: "success", DeployFail: true}, okEnv, seqA("deploy", nil)), "close"),
+		closeIn(mk("forceclose-during-completion:deploy-failed", "op", Behaviour{Outcome: "success", DeployFail: true}, okEnv, seqA("deploy", nil)), "forceclose"),
+		closeIn(mk("close-during-completion:disabled", "op", Behaviour{Outcome: "success"}, okEnv, seqA("deploy", nil, "enabling", false)), "close"),
+		closeIn(mk("close-during-completion:crashed", "op", Behaviour{Outcome: "crash"}, okEnv, full()), "close"),
+		closeIn(mk("close-during-completion:error", "op", Behaviour{Outcome: "error"}, okEnv, full()), "close"),
 		mk("closed-waiting-start", "op", Behaviour{Outcome: "success"}, okEnv,
 			withDelay(seqA("deploy", nil, "enabling", true, "forceclose", nil), 2, 5)),
 		mk("start-failed-read-schema", "op", Behaviour{Outcome: "success"}, pvEnv{StartMode: "read-schema", DeployCfg: "local"}, full()),
@@ -787,7 +821,7 @@ func pvInput(c *pvCase, a pvAction) (stage string, in map[string]any, valid bool
 func runProviderCase(c *pvCase) map[string]any {
 	s := newScript()
 	currentScript.Store(s)
-	rec := &pvRecorder{reentrant: map[string]map[string]any{}, valid: map[string]bool{}}
+	rec := &pvRecorder{reentrant: map[string]map[string]any{}, valid: map[string]bool{}, closeInComplete: c.CloseInComplete}
 	for _, st := range c.Reentrant {
 		_, in, v := pvInput(c, pvAction{Op: st, Arg: map[string]any{"enabling": true, "starting": "valid"}[st]})
 		rec.reentrant[st] = in
